@@ -20,6 +20,21 @@ type requestStream struct {
 	reader          *bufio.Reader
 	totalBytesRead  int
 	chunkLeft       int
+	// chunkedEOF is set once the last chunk and the trailer were read.
+	chunkedEOF bool
+}
+
+// drained reports whether the whole request body has been read off the
+// connection, i.e. the next byte on the connection belongs to the next request.
+func (rs *requestStream) drained() bool {
+	if rs.header == nil {
+		return true
+	}
+	contentLength := rs.header.ContentLength()
+	if contentLength == -1 {
+		return rs.chunkedEOF
+	}
+	return rs.totalBytesRead >= contentLength
 }
 
 func (rs *requestStream) Read(p []byte) (int, error) {
@@ -38,6 +53,7 @@ func (rs *requestStream) Read(p []byte) (int, error) {
 				if err != nil && err != io.EOF {
 					return 0, err
 				}
+				rs.chunkedEOF = true
 				return 0, io.EOF
 			}
 			rs.chunkLeft = chunkSize
@@ -98,6 +114,7 @@ func releaseRequestStream(rs *requestStream) {
 	rs.prefetchedBytes = nil
 	rs.totalBytesRead = 0
 	rs.chunkLeft = 0
+	rs.chunkedEOF = false
 	rs.reader = nil
 	rs.header = nil
 	requestStreamPool.Put(rs)
